@@ -503,7 +503,11 @@ func (g *c09Gen) action() bool {
 		if g.b("chainidx") {
 			outer, inner = ast.Idx(ast.Mem(base.Clone(), "list"), ast.Num("0")), ast.Idx(ast.Mem(base.Clone(), "list"), ast.Num("2"))
 		}
-		if g.n(0, 3, "chainself") == 0 {
+		if g.n(0, 4, "chainsame") == 0 {
+			// both assignments address the same missing place: it holds the value afterwards
+			inner = outer.Clone()
+			label = "two-stores-to-one-missing-place"
+		} else if g.n(0, 3, "chainself") == 0 {
 			// the inner assignment puts a scalar where the outer target needs a container:
 			// the outer store is then a store of a member on a scalar
 			inner = base.Clone()
